@@ -373,7 +373,7 @@ pub fn check_ws(ws: &WorkspaceSpec, info: &mut CaseInfo) -> Outcome {
 }
 
 pub fn run(ctx: &Ctx) {
-    ctx.run_prop("lib", ctx.tier.pick(20_000, 1_000_000), 16, || workspace(cfg()).prop_map(|ws| Case { ws }), |c, info| check_ws(&c.ws, info));
+    ctx.run_prop("lib", ctx.tier.pick(60_000, 2_000_000), 16, || workspace(cfg()).prop_map(|ws| Case { ws }), |c, info| check_ws(&c.ws, info));
 }
 
 pub fn judge(_ctx: &Ctx, sub: &str, case: &Value) -> Option<Outcome> {
